@@ -26,6 +26,7 @@ def c18Ops : List String := ["if-match", "select", "resolve-addr", "select-at", 
 def dispatchExec (op : String) (ts impl : List String) : Option String :=
   if op.startsWith "txt-" then Driver.C16.exec op ts impl
   else if op == "decode" then Driver.Wire.exec op ts
+  else if op == "c15-call" then Driver.C15.exec ts impl
   else if op == "sim" then Driver.Sim.exec ts impl
   else if op == "sim2" then some "nomodel"
   else if op == "stress-shutdown" then some "ok"
@@ -39,6 +40,7 @@ def dispatchExec (op : String) (ts impl : List String) : Option String :=
 def dispatchMon (op : String) (ts impl : List String) : Option String :=
   if op.startsWith "txt-" then Driver.C16.monitor op ts impl
   else if op == "decode" then Driver.Wire.monitor op ts impl
+  else if op == "c15-call" then Driver.C15.monitorCall impl
   else if op == "sim" then Driver.SimAll.monitorOp ts impl
   else if op == "sim2" then Driver.SimAll.monitorOp2 ts impl
   else if op == "stress-shutdown" then Driver.MonShutdown.monitorStress impl
